@@ -191,6 +191,31 @@ Lemma predecode_disagrees_on_duplicated_attribute :
   option_map r_id (match unmarshal_response (dedupe f9_raw) with Ok r => Some r | Err _ => None end) = Some "s".
 Proof. split; vm_compute; reflexivity. Qed.
 
+(* F11: name-space declarations NAMED like base attributes, placed after the genuine attributes of a root that carries an
+   exclusive-canonicalisation signature.  encoding/xml matches an attribute field on the local name, so the pre-decoder reads
+   xmlns:ID / xmlns:Destination (last match wins); the signature library returns the re-parsed CANONICAL form, from which
+   exclusive canonicalisation has dropped the unused declarations, so validation decodes the genuine values.  [f11_verified] is
+   that tree (the answer of the signature oracle for [f11_raw]; exhibited on the real library by the C20 stream). *)
+Definition f11_genuine_attrs : list attr :=
+  [ {| at_space := "xmlns"; at_key := "samlp"; at_val := "urn:oasis:names:tc:SAML:2.0:protocol" |};
+    {| at_space := ""; at_key := "ID"; at_val := "_good" |};
+    {| at_space := ""; at_key := "Version"; at_val := "2.0" |};
+    {| at_space := ""; at_key := "Destination"; at_val := "https://sp.example.com/acs" |} ].
+Definition f11_raw : node :=
+  Elem "samlp" "Response"
+    (f11_genuine_attrs ++
+     [ {| at_space := "xmlns"; at_key := "ID"; at_val := "_evil" |};
+       {| at_space := "xmlns"; at_key := "Destination"; at_val := "https://evil.example.com/acs" |} ]) [].
+Definition f11_verified : node := Elem "samlp" "Response" f11_genuine_attrs [].
+
+Lemma predecode_disagrees_on_signed_root_with_xmlns_named_attributes :
+  well_formed_attrs f11_raw = true /\
+  (match unmarshal_base_response f11_raw with Ok b => Some (br_id b, br_destination b) | Err _ => None end)
+    = Some ("_evil", "https://evil.example.com/acs") /\
+  (match unmarshal_response f11_verified with Ok r => Some (r_id r, r_destination r) | Err _ => None end)
+    = Some ("_good", "https://sp.example.com/acs").
+Proof. repeat split; vm_compute; reflexivity. Qed.
+
 (* ---------- 4. the Issuer element field: both root structs evolve it identically ---------- *)
 Definition issuer_field : field := {| f_go := "Issuer"; f_kind := KElem [] "" "Issuer"; f_type := TPtr (TStruct "Issuer") |}.
 
